@@ -15,6 +15,7 @@ DISPENSO_THREAD_LOCAL uint64_t currentThread = kInvalidThread;
 
 uint64_t threadId() {
   if (currentThread == kInvalidThread) {
+    DISPENSO_VERIF_POINT("TidFetchAdd", &nextThread);
     currentThread = nextThread.fetch_add(uint64_t{1}, std::memory_order_relaxed);
   }
   return currentThread;
